@@ -25,6 +25,20 @@ impl Outcome {
 /// another group of the same session, so the group is not orphaned), disables core dumps and
 /// runs `f`; its return value becomes the exit status (via `_exit`, no atexit hooks of ours).
 pub fn run_child<F: FnOnce() -> i32>(f: F, timeout: Duration) -> Outcome {
+    run_child_opts(f, timeout, false)
+}
+
+/// `continue_stops`: a child that stops (it emulated a stop signal's default action) is sent SIGCONT and waited for further
+pub fn run_child_opts<F: FnOnce() -> i32>(f: F, timeout: Duration, continue_stops: bool) -> Outcome {
+    // Before the first fork the parent uses the library once (a raise of SIGURG - ignored by default - and its emulation):
+    // whatever the library remembers per process (a cached pid, a lazily built table) is then inherited by every probe
+    // child in the state a long-running program that forks would hand it over in.
+    static WARM: std::sync::Once = std::sync::Once::new();
+    WARM.call_once(|| {
+        let _ = signal_hook::low_level::raise(libc::SIGURG);
+        let _ = signal_hook::low_level::emulate_default_handler(libc::SIGURG);
+        let _ = signal_hook::low_level::signal_name(libc::SIGURG);
+    });
     unsafe {
         let pid = libc::fork();
         assert!(pid >= 0, "fork failed");
@@ -52,6 +66,8 @@ pub fn run_child<F: FnOnce() -> i32>(f: F, timeout: Duration) -> Outcome {
                     return Outcome::Exited(libc::WEXITSTATUS(status));
                 } else if libc::WIFSIGNALED(status) {
                     return Outcome::Signaled(libc::WTERMSIG(status));
+                } else if libc::WIFSTOPPED(status) && continue_stops {
+                    libc::kill(pid, libc::SIGCONT);
                 } else if libc::WIFSTOPPED(status) {
                     let s = libc::WSTOPSIG(status);
                     libc::kill(pid, libc::SIGKILL);
